@@ -3,12 +3,16 @@
 #![allow(clippy::all)]
 mod lex;
 mod rt;
+mod schema;
+mod types;
+mod harvest;
 
 fn main() {
     let (module, mode, args) = vh::start();
     match module.as_str() {
         "lex" => lex::run(&mode, &args),
         "rt" => rt::run(&mode, &args),
+        "schema" => schema::run(&mode, &args),
         m => vh::unknown(m),
     }
 }
